@@ -523,6 +523,11 @@ int main(int argc, char** argv)
                 std::cerr << "Error reading " << startdistfile << std::endl;
                 return EXIT_SUCCESS;
             }
+            if (PhaseSpace::nx != ps_bins) {
+                Display::printText("Grid size of initial distribution differs "
+                                   "from GridSize. Will now quit.");
+                return EXIT_SUCCESS;
+            }
         } else
         #endif
         if (isOfFileType(".txt",startdistfile)) {
